@@ -72,7 +72,8 @@ Record ccfg := mk_ccfg {
   cc_skip_verify : bool;   (* InsecureSkipVerify *)
   cc_has_vpc : bool;       (* VerifyPeerCertificate callback configured *)
   cc_has_vc : bool;        (* VerifyConnection callback configured *)
-  cc_psk_cb : bool         (* LocalPSKCallback != nil : the Certificate message is then not even pulled *)
+  cc_psk_cb : bool;        (* LocalPSKCallback != nil : the Certificate message is then not even pulled *)
+  cc_name_is_ip : bool     (* the configured ServerName is an IP address literal (blanked for SNI) *)
 }.
 
 (* the server flight (ServerHello .. ServerHelloDone, later Finished) as the client sees it *)
@@ -94,14 +95,32 @@ Record sview := mk_sview {
   sv_fin_valid : bool;         (* its verify_data equals PRF(ms, "server finished", H(local transcript)) *)
   sv_scheme_fits_key : bool;   (* the CLAIMED signature algorithm is one the leaf's key type produces (Ed25519 key <->
                                   Ed25519, ECDSA key <-> ECDSA, RSA key <-> RSA / PSS) and its hash yields a digest *)
+  sv_psk_nonempty : bool;      (* the local PSK callback returned a non-empty key (and no error) *)
+  sv_peer_knows_psk : bool;    (* ground truth: the peer derived its keys from the pre-shared key of the identity *)
   sv_signed_by_leaf : bool     (* ground truth: the signature was made with the leaf's private key over this
                                   handshake's client_random||server_random||params.  [sv_sig_valid] is only what
                                   the routine selected by the KEY TYPE returns on the digest of the CLAIMED hash *)
 }.
 
-(* VerifyServerCert: one call, all four must hold *)
+(* VerifyServerCert: one call, all four must hold ([sv_name_ok]: valid for the CONFIGURED name; an empty
+   name is no requirement) *)
 Definition sv_x509_ok (v : sview) : bool :=
   sv_chain_ok v && sv_name_ok v && sv_time_ok v && sv_certalgs_ok v.
+
+(* THE SWITCH for defect B (repaired in /repo by 1f5f836): an IP-literal ServerName is blanked for
+   SNI, and the blanked value was also what VerifyServerCert got - an empty DNSName switches host
+   verification off.  [true] = the configured name is verified (x509 matches IP SANs). *)
+Definition client_verifies_ip_literal_name : bool := true.
+
+(* what VerifyServerCert returns in the code: with [ipname = false] the name is not looked at when it
+   is an IP literal *)
+Definition sv_x509_code (ipname : bool) (c : ccfg) (v : sview) : bool :=
+  sv_chain_ok v && (sv_name_ok v || (cc_name_is_ip c && negb ipname)) && sv_time_ok v && sv_certalgs_ok v.
+
+(* THE SWITCH for defect C (repaired in /repo by f39ce00): a PSK callback that returns an empty key
+   and no error (lookup of an unknown identity) gave a pre-master secret of zeros.  [true] = an empty
+   key is refused like a callback error (internal_error). *)
+Definition psk_refuses_empty_key : bool := true.
 
 (* THE SWITCH for defect F45 (signature scheme confusion, repaired in /repo by 6569e78):
    internal/handshakecrypto/crypto.go verifyCertificateSignature chose the verification routine by
@@ -122,13 +141,13 @@ Definition client12_vc (c : ccfg) (v : sview) : verdict :=
   check (negb (cc_has_vc c) || sv_vc_ok v) a_bad_certificate.
 
 (* flight5Generate -> initializeCipherSuite *)
-Definition client12_init_with (bind : bool) (c : ccfg) (v : sview) : verdict :=
+Definition client12_init_gen (ipname bind : bool) (c : ccfg) (v : sview) : verdict :=
   match sv_suite v with
   | SCert =>
       andthen (check (sv_ske_msg v && sv_scheme_allowed v) a_insufficient_security)
      (andthen (check (sv_certs_nonempty v && sv_cert_parses v && (negb bind || sv_scheme_fits_key v) && sv_sig_valid v)
                      a_bad_certificate)
-     (andthen (check (cc_skip_verify c || sv_x509_ok v) a_bad_certificate)
+     (andthen (check (cc_skip_verify c || sv_x509_code ipname c v) a_bad_certificate)
      (andthen (check (negb (cc_has_vpc c) || sv_vpc_ok v) a_bad_certificate)
               (client12_vc c v))))
   | _ => client12_vc c v
@@ -138,10 +157,21 @@ Definition client12_init_with (bind : bool) (c : ccfg) (v : sview) : verdict :=
 Definition client12_fin (v : sview) : verdict :=
   if negb (sv_fin_arrives v) then Wait else check (sv_fin_valid v) a_handshake_failure.
 
-Definition client12_with (bind : bool) (c : ccfg) (v : sview) : verdict :=
-  andthen (client12_flight3 c v) (andthen (client12_init_with bind c v) (client12_fin v)).
+Definition client12_gen (ipname bind : bool) (c : ccfg) (v : sview) : verdict :=
+  andthen (client12_flight3 c v) (andthen (client12_init_gen ipname bind c v) (client12_fin v)).
 
-Definition client12 : ccfg -> sview -> verdict := client12_with verify_binds_scheme_to_key.
+(* handleServerKeyExchange (from flight3Parse once the flight is complete): the PSK callback *)
+Definition client12_psk_gate (refuse : bool) (c : ccfg) (v : sview) : verdict :=
+  if cc_psk_cb c && is_accept (client12_flight3 c v)
+  then check (negb refuse || sv_psk_nonempty v) 80 (* internal_error *) else Accept.
+
+Definition client12_all (refuse ipname bind : bool) (c : ccfg) (v : sview) : verdict :=
+  andthen (client12_psk_gate refuse c v) (client12_gen ipname bind c v).
+
+Definition client12_with : bool -> ccfg -> sview -> verdict := client12_gen client_verifies_ip_literal_name.
+Definition client12_init_with : bool -> ccfg -> sview -> verdict := client12_init_gen client_verifies_ip_literal_name.
+Definition client12 : ccfg -> sview -> verdict :=
+  client12_all psk_refuses_empty_key client_verifies_ip_literal_name verify_binds_scheme_to_key.
 Definition client12_init : ccfg -> sview -> verdict := client12_init_with verify_binds_scheme_to_key.
 
 Definition client_accepts_server (c : ccfg) (v : sview) : bool := is_accept (client12 c v).
@@ -158,7 +188,13 @@ Definition client_required (c : ccfg) (v : sview) : bool :=
 (* the credential itself (not only the checks the code makes): for certificate suites the signature
    really is by the leaf key over this handshake, under a scheme that fits the key *)
 Definition client_credential (c : ccfg) (v : sview) : bool :=
-  client_required c v && (negb (is_cert (sv_suite v)) || (sv_scheme_fits_key v && sv_signed_by_leaf v)).
+  client_required c v && (negb (is_cert (sv_suite v)) || (sv_scheme_fits_key v && sv_signed_by_leaf v))
+  && (negb (is_psk (sv_suite v)) || sv_peer_knows_psk v).
+
+(* key-knowledge premise for PSK suites: with a non-empty key, only a peer holding it produces a
+   Finished that opens and verifies (symbolic counterpart: Hs/C04TranscriptSound.psk_binds) *)
+Definition psk_sound_s (v : sview) : Prop :=
+  sv_psk_nonempty v = true -> sv_fin_arrives v = true -> sv_fin_valid v = true -> sv_peer_knows_psk v = true.
 
 (* unforgeability, the premise of the binding theorems: under a scheme that fits the key, only the
    holder of the leaf's private key makes the key-type routine accept *)
@@ -195,6 +231,8 @@ Record cview := mk_cview {
   cl_fin_valid : bool;         (* its verify_data equals PRF(ms, "client finished", H(local transcript)) *)
   cl_cert_msg : bool;          (* a Certificate message (even an empty one) is in the flight: state.SessionID = nil *)
   cl_scheme_fits_key : bool;   (* as sv_scheme_fits_key, for CertificateVerify *)
+  cl_psk_nonempty : bool;      (* the local PSK callback returned a non-empty key for the client's identity *)
+  cl_peer_knows_psk : bool;    (* ground truth: the client derived its keys from the pre-shared key of that identity *)
   cl_signed_by_leaf : bool     (* ground truth: CertificateVerify made with the leaf's private key over this transcript *)
 }.
 
@@ -235,7 +273,16 @@ Definition server12_gen (bind checks_fin : bool) (s : scfg) (v : cview) : verdic
 Definition server12_with : bool -> scfg -> cview -> verdict := server12_gen verify_binds_scheme_to_key.
 Definition server12_certs : scfg -> cview -> verdict * bool := server12_certs_with verify_binds_scheme_to_key.
 
-Definition server12 : scfg -> cview -> verdict := server12_with server12_checks_client_finished.
+(* flight4Parse, between the certificate part and the wait for the Finished: the PSK callback *)
+Definition server12_psk_gate (refuse bind : bool) (s : scfg) (v : cview) : verdict :=
+  if cl_cke_msg v && is_accept (fst (server12_certs_with bind s v)) && is_psk (cl_suite v)
+  then check (negb refuse || cl_psk_nonempty v) 80 (* internal_error *) else Accept.
+
+Definition server12_all (refuse bind chk : bool) (s : scfg) (v : cview) : verdict :=
+  andthen (server12_psk_gate refuse bind s v) (server12_gen bind chk s v).
+
+Definition server12 : scfg -> cview -> verdict :=
+  server12_all psk_refuses_empty_key verify_binds_scheme_to_key server12_checks_client_finished.
 
 Definition server_accepts_client (s : scfg) (v : cview) : bool := is_accept (server12 s v).
 
@@ -261,10 +308,14 @@ Definition server_required (s : scfg) (v : cview) : bool :=
 Definition cl_with_fin_valid (v : cview) (b : bool) : cview :=
   mk_cview (cl_suite v) (cl_cke_msg v) (cl_certs_given v) (cl_cert_parses v) (cl_cv_msg v) (cl_scheme_allowed v)
            (cl_cv_valid v) (cl_chain_valid v) (cl_vpc_ok v) (cl_vc_ok v) (cl_fin_arrives v) b
-           (cl_cert_msg v) (cl_scheme_fits_key v) (cl_signed_by_leaf v).
+           (cl_cert_msg v) (cl_scheme_fits_key v) (cl_psk_nonempty v) (cl_peer_knows_psk v) (cl_signed_by_leaf v).
 
 Definition server_credential (s : scfg) (v : cview) : bool :=
-  server_required s v && (negb (cl_certs_given v) || (cl_scheme_fits_key v && cl_signed_by_leaf v)).
+  server_required s v && (negb (cl_certs_given v) || (cl_scheme_fits_key v && cl_signed_by_leaf v))
+  && (negb (is_psk (cl_suite v)) || cl_peer_knows_psk v).
+
+Definition psk_sound_c (v : cview) : Prop :=
+  cl_psk_nonempty v = true -> cl_fin_arrives v = true -> cl_peer_knows_psk v = true.
 
 Definition sig_sound_c (v : cview) : Prop :=
   cl_scheme_fits_key v = true -> cl_cv_valid v = true -> cl_signed_by_leaf v = true.
@@ -320,7 +371,9 @@ Record cfg13 := mk_cfg13 {
   k_skip_verify : bool;      (* client: InsecureSkipVerify *)
   k_policy : client_auth;    (* server: ClientAuth *)
   k_has_vpc : bool;
-  k_has_vc : bool
+  k_has_vc : bool;
+  k_name_is_ip : bool;       (* client: the configured ServerName is an IP address literal *)
+  k_psk_only : bool          (* client: configured with a PSK only (no roots, no name, no certificate) *)
 }.
 
 (* a protected flight [EncryptedExtensions] [CertificateRequest] [Certificate] [CertificateVerify] Finished *)
@@ -338,7 +391,8 @@ Record pview := mk_pview {
   p_fin_valid : bool;        (* verify_data = HMAC(finished_key, transcript hash) *)
   p_pss_oid_ok : bool;       (* validateSignatureAlgOID: a claimed RSA-PSS scheme matches the certificate's key OID *)
   p_scheme_fits_key : bool;
-  p_signed_by_leaf : bool
+  p_signed_by_leaf : bool;
+  p_x509_sans_name : bool    (* the chain validates (roots, validity period) when the name is not looked at *)
 }.
 
 Definition p_has_certs (v : pview) : bool := p_cert_msg v && p_certs_nonempty v.
@@ -349,23 +403,24 @@ Definition flight13_certificate (v : pview) : verdict :=
   else Accept.
 
 (* verifyPeerIdentity *)
-Definition flight13_identity (k : cfg13) (v : pview) : verdict :=
+Definition flight13_identity (ipname : bool) (k : cfg13) (v : pview) : verdict :=
   andthen
     (if p_from_client v
      then check (negb (policy_verifies (k_policy k)) || p_x509_ok v) a_bad_certificate
-     else check (k_skip_verify k || p_x509_ok v) a_bad_certificate)
+     else check (k_skip_verify k || (if k_name_is_ip k && negb ipname then p_x509_sans_name v else p_x509_ok v))
+                a_bad_certificate)
     (check (negb (k_has_vpc k) || p_vpc_ok v) a_bad_certificate).
 
 Definition a_internal_error : N := 80.
 
-Definition flight13_certificate_verify_with (bind : bool) (k : cfg13) (v : pview) : verdict :=
+Definition flight13_certificate_verify_all (ipname bind : bool) (k : cfg13) (v : pview) : verdict :=
   if negb (p_cv_msg v) then Accept else
   andthen (check (p_has_certs v) a_no_certificate)
  (andthen (check (p_scheme_allowed v) a_insufficient_security)
  (andthen (check (p_pss_oid_ok v) a_bad_certificate)                     (* ErrInvalidCertificateOID *)
  (andthen (check (negb bind || p_scheme_fits_key v) a_internal_error)    (* ErrInvalidSignatureAlgorithm: not mapped *)
  (andthen (check (p_cert_parses v && p_cv_valid v) a_bad_certificate)
-          (flight13_identity k v))))).
+          (flight13_identity ipname k v))))).
 
 Definition flight13_finished_with (req_srv_cert : bool) (k : cfg13) (v : pview) : verdict :=
   andthen (check (negb (p_has_certs v) || p_cv_msg v) a_bad_certificate)        (* ErrClientCertificateNotVerified *)
@@ -375,15 +430,32 @@ Definition flight13_finished_with (req_srv_cert : bool) (k : cfg13) (v : pview) 
  (andthen (check (p_fin_valid v) a_handshake_failure)
           (check (negb (k_has_vc k) || p_vc_ok v) a_bad_certificate)))).
 
-Definition flight13_gen (bind req_srv_cert : bool) (k : cfg13) (v : pview) : verdict :=
+Definition flight13_all (ipname bind req_srv_cert : bool) (k : cfg13) (v : pview) : verdict :=
   andthen (flight13_certificate v)
- (andthen (flight13_certificate_verify_with bind k v) (flight13_finished_with req_srv_cert k v)).
+ (andthen (flight13_certificate_verify_all ipname bind k v) (flight13_finished_with req_srv_cert k v)).
 
+Definition flight13_gen : bool -> bool -> cfg13 -> pview -> verdict := flight13_all client_verifies_ip_literal_name.
 Definition flight13_with : bool -> cfg13 -> pview -> verdict := flight13_gen verify_binds_scheme_to_key.
+Definition flight13_certificate_verify_with : bool -> cfg13 -> pview -> verdict :=
+  flight13_certificate_verify_all client_verifies_ip_literal_name.
 Definition flight13_certificate_verify : cfg13 -> pview -> verdict :=
   flight13_certificate_verify_with verify_binds_scheme_to_key.
 
-Definition flight13 : cfg13 -> pview -> verdict := flight13_with client13_requires_server_certificate.
+(* THE SWITCH for known finding D (NOT repaired): DTLS 1.3 has no PSK mode in this stack; a client
+   configured with a PSK only but MaxVersion 1.3 silently authenticates a DTLS 1.3 server by its
+   certificate against the SYSTEM roots, with no name to check, and never consults the PSK callback.
+   [true] = a repair that refuses (PSK-only configuration + DTLS 1.3). *)
+Definition client13_refuses_psk_only : bool := false.
+
+Definition client13_psk_gate (refuse : bool) (k : cfg13) (v : pview) : verdict :=
+  check (negb refuse || p_from_client v || negb (k_psk_only k)) a_handshake_failure.
+
+Definition flight13_top (refuse_psk_only ipname bind req : bool) (k : cfg13) (v : pview) : verdict :=
+  andthen (client13_psk_gate refuse_psk_only k v) (flight13_all ipname bind req k v).
+
+Definition flight13 : cfg13 -> pview -> verdict :=
+  flight13_top client13_refuses_psk_only client_verifies_ip_literal_name verify_binds_scheme_to_key
+               client13_requires_server_certificate.
 
 (* proof of possession in a protected flight *)
 Definition p_pop (v : pview) : bool :=
@@ -411,4 +483,7 @@ Definition client13_required (k : cfg13) (v : pview) : bool :=
 
 Definition flight13_credential (k : cfg13) (v : pview) : bool :=
   (if p_from_client v then server13_required k v else client13_required k v)
-  && (negb (p_has_certs v) || (p_scheme_fits_key v && p_signed_by_leaf v)).
+  && (negb (p_has_certs v) || (p_scheme_fits_key v && p_signed_by_leaf v))
+  (* a client that was given nothing but a pre-shared key requires the peer to know that key; a DTLS 1.3
+     handshake of this stack never proves that *)
+  && (p_from_client v || negb (k_psk_only k)).
